@@ -172,11 +172,33 @@ func (p *c10) Draw(t *rapid.T, tier string) *runner.Scenario {
 	switch how {
 	case "field":
 		n := rapid.IntRange(1, 2).Draw(t, "n_mut")
+		// half of the mutations go to the fields that drive framing and allocation
+		// (record lengths, length prefixes, sizes), inside chunks as often as outside
+		var framing, inner []fref
+		for _, fr := range fields {
+			if fr.fl.Kind == "reclen" || fr.fl.Kind == "len" || fr.fl.Kind == "size" {
+				framing = append(framing, fr)
+			}
+			if fr.base != 0 {
+				inner = append(inner, fr)
+			}
+		}
 		for i := 0; i < n && len(fields) > 0; i++ {
-			fr := fields[rapid.IntRange(0, len(fields)-1).Draw(t, "field")]
+			pool := fields
+			switch rapid.IntRange(0, 3).Draw(t, "field_pool") {
+			case 0, 1:
+				if len(framing) > 0 {
+					pool = framing
+				}
+			case 2:
+				if len(inner) > 0 {
+					pool = inner
+				}
+			}
+			fr := pool[rapid.IntRange(0, len(pool)-1).Draw(t, "field")]
 			off := fr.base + fr.fl.Off
 			cur := getField(in, off, fr.fl.Width)
-			vals := append([]uint64{cur - 1, cur + 1, cur + 9, cur ^ 0x80}, hostile...)
+			vals := append([]uint64{cur - 1, cur + 1, cur + 9, cur ^ 0x80, uint64(rapid.IntRange(0, 24).Draw(t, "small_value"))}, hostile...)
 			v := vals[rapid.IntRange(0, len(vals)-1).Draw(t, "value")]
 			putField(in, off, fr.fl.Width, v)
 			vc := "hostile"
